@@ -7,7 +7,8 @@ CHECKS = {
         "text": "Decides, for every mask / baseline set / image / matrix at once, the structural clauses of the direct Fourier transform: the accumulated term of each "
                 "of the 7 DFT kernels equals the reference form I_p(cos(phi)+i sin(phi)), phi=-2pi(x_p u_k+y_p v_k) (adjoint: Re V cos(psi) - Im V sin(psi)) by equality of canonical "
                 "polynomial normal forms computed from the source; loops cover the full pixel/baseline ranges onto zeros; only zero-tests guard matrix entries (linearity for signed matrices); "
-                "preload and direct variants are wired to the same grid, baselines, tables and slim image; interferometer normal equations pair real with real and imaginary with imaginary parts. "
+                "preload and direct variants are wired to the same grid, baselines, tables and slim image, the two being the two arms of one test of preload_transform; the baselines the tables were computed from are a private copy "
+                "(ownership tags), so tables and baselines cannot drift apart; interferometer normal equations pair real with real and imaginary with imaginary parts. "
                 "Not decided: floating-point accuracy, the NUFFT transformer, numerical agreement of outputs.",
         "note": "Trusted: Python ast, the E1 resolver, numpy elementwise/indexing semantics, cos/sin treated as uninterpreted functions, the reference forms written from the property statement.",
         "technique": "static analysis: abstract evaluation of kernels to polynomial normal forms (dataflow with joins) + canonical-form equality with reference; call-site argument agreement between sibling branches",
@@ -49,7 +50,7 @@ CHECKS = {
                 "pixel centre y = oy + ((H-1)/2 - i)s0, x = ox + (j - (W-1)/2)s1 (2-D and 1-D, scalar and grid variants, grid from mask); central scaled coordinate +oy/s0, -ox/s1; index = int(inverse affine + 1/2); "
                 "flattened index = row*W + col on integer coordinates of the same geometry; compositions centre->index->centre and scaled->pixels->scaled reduce to the identity by substitution of forms; "
                 "Geometry2D/1D minima/maxima/extent = origin -/+ shape*scale/2 in (x_min, x_max, y_min, y_max) order; the five shape-mask constructors start all-masked and unmask [y, x] exactly under the documented "
-                "radial inequality of the pixel-centre offset from `centre` (each ellipse with its own angle / axis ratio / radius); Geometry2D methods pass their own geometry triple. "
+                "radial inequality of the pixel-centre offset from `centre` (each ellipse with its own angle / axis ratio / radius); Geometry2D methods pass their own geometry triple; the 1-D grid from a mask holds x = ox + (x - (W-1)/2) s. "
                 "Not decided: floating-point behaviour in the tie band, trigonometry of the elliptical radius (uninterpreted), containment of arbitrary query coordinates as numbers.",
         "note": "Trusted: Python ast, E1 resolver, int() on non-negative arguments canonicalised with floor division, reference forms entered from the property statement.",
         "technique": "static analysis: polynomial-normal-form constant propagation over kernels and class-layer properties + canonical-form equality; composition by substitution; normalised guard comparison; keyword wiring rule",
@@ -79,7 +80,8 @@ CHECKS = {
                 "preload slot / fresh, in-place writes per function, bottom-up to a fixpoint over the resolved call graph): no function writes in place into storage reachable from its parameters (20 listed in-place helpers excepted, whose "
                 "every caller must hand them only arrays it allocated itself); no function writes into a cached property's value except write-then-evict of a value every implementation allocates freshly; fields of self are written in place "
                 "only by constructors and never when the constructor chain (composed through super().__init__) stored a constructor argument there un-copied; no query rebinds or deletes fields of self (listed explicit setters excepted); a "
-                "shallow clone whose contents are replaced drops every cached-property value; every draw from the global numpy RNG in a seeded function is unconditionally preceded by seeding with that seed and every caller forwards its seed. "
+                "shallow clone whose contents are replaced - and item assignment, and every raw copy of the instance dict - drops every cached-property value; no array class stores a field computed from its contents at construction (derived objects "
+                "share the instance dict); every draw from the global numpy RNG in a seeded function is unconditionally preceded by seeding with that seed, every caller forwards its seed, and the field holding it is the constructor argument itself. "
                 "Not decided: value-level equality of repeated computations (numerical determinism of numpy / scipy / numba is assumed), aliasing through objects whose type the resolver cannot see.",
         "note": "Trusted: Python ast, E1 resolver, the table of numpy calls that return views vs copies (sa/effect.py), the listed in-place helpers (each with its reason). Known finding: MapperValued.values_masked.",
         "technique": "static analysis: interprocedural effect / ownership analysis (alias tags, mutation summaries to a fixpoint), who-may-write rules, clone / cache-drop typestate, must-precede rule for RNG seeding",
@@ -191,7 +193,7 @@ CHECKS = {
         "text": "Decides, for all source / target shapes, kernels, masks, scales, origins: resized_array_2d_from copies destination (i, j) from source (i + floor(H/2) - floor(R0/2), j + floor(W/2) - floor(R1/2)) exactly when inside both arrays (each index "
                 "tested against its own axis), writes pad_value exactly when the source cell is outside, spans 2 floor(R/2) + 1 >= R destination cells, and returns the requested shape; a parity case analysis of the computed offset form shows "
                 "offset = (N - R)/2 whenever parity is preserved - the condition for a surviving pixel to keep its scaled coordinate under the C02 centre formula; padding enlarges each axis by its own K - 1, trimming cuts ceil(K/2) - 1 per own axis, "
-                "and pad-then-trim for odd K is the identity window with the mask cropped by the same offset (parity algebra); Array2D / Mask2D resize rebuild on the parent's pixel scales AND origin; the automatic padding in Imaging pads data and noise map "
+                "and pad-then-trim for odd K is the identity window with the mask cropped by the same offset (parity algebra); Array2D / Mask2D resize rebuild on the parent's pixel scales AND origin, and the one resize util is the sole producer of the returned values / mask on every path (no second placement arithmetic); the automatic padding in Imaging pads data and noise map "
                 "identically; the zoom window is never shifted (cell (i, j) = source (y0 + i, x0 + j) when it exists), equals zoom region +/- buffer, and the zoom region is the bounding box of the unmasked pixels, only ever widened. "
                 "Not decided: the half-pixel choice for mixed parities (left open by the property).",
         "note": "Trusted: Python ast, E1 resolver, numpy slicing, int(x/2) = floor(x/2) for non-negative extents.",
@@ -203,7 +205,8 @@ CHECKS = {
                 "an escape-filtered temporary) and a few sites outside the entry points C12 names, printed as NOTE lines; (G2) the origin passed on is point-kinded: X.origin, an origin parameter, X.mask_centre, a midpoint of two coordinates, or a tuple "
                 "whose k-th element is origin component k plus component-k displacements (axis purity); (covariance) for the util layer, substituting origin -> origin + d (and coordinate inputs -> inputs + d) in the computed canonical forms shifts every "
                 "coordinate output by exactly d and leaves every index output unchanged - grid from mask, over-sampled grid, scaled<->pixel conversions, Geometry2D extent / minima / maxima; (derived) mask centre, derived grids, sub-grids, mesh-pixel "
-                "counts and radial projections re-pass the parent's shape, scales and origin. Not decided: covariance of quantities that pass through scipy (griddata, Delaunay), numerical equality.",
+                "counts and radial projections re-pass the parent's shape, scales and origin; geometry derived from the extrema of a coordinate grid (rectangular mesh overlay) has its centre shifted by exactly d and its size unchanged under "
+                "substitution of extrema -> extrema + d. Not decided: covariance of quantities that pass through scipy (griddata, Delaunay), numerical equality.",
         "note": "Trusted: Python ast, E1 resolver (a call it cannot resolve to a project callable is not a G1 site; counted), reference notion of point / vector kinds.",
         "technique": "static analysis: who-passes-what rule over every resolved call of an origin-bearing callable; point / vector kind checking with axis purity; translation substitution on polynomial normal forms",
     },
